@@ -281,6 +281,12 @@ def gen_histories(ctx, mode, num, depth):
     outp, statp = os.path.join(d, "hist.ndjson"), os.path.join(d, "stats.json")
     if os.path.exists(statp):
         return outp, json.load(open(statp))
+    # two checks started at the same time must not fill the same cache entry at once
+    import fcntl
+    lockf = open(os.path.join(d, "lock"), "w")
+    fcntl.flock(lockf, fcntl.LOCK_EX)
+    if os.path.exists(statp):
+        return outp, json.load(open(statp))
     raw = os.path.join(d, "raw.csv")
     if os.path.exists(raw):
         os.remove(raw)
@@ -311,7 +317,9 @@ def gen_histories(ctx, mode, num, depth):
     states = int(m.group(1)) if m else r["generated"]
     st = {"spec": "MC_Life", "mode": mode, "histories": n, "states": r["distinct"] or states, "transitions": states,
           "tlc_wall_s": round(r["wall"], 1), "depth": depth}
-    json.dump(st, open(statp, "w"))
+    with open(statp + ".tmp", "w") as fh:
+        json.dump(st, fh)
+    os.replace(statp + ".tmp", statp)
     return outp, st
 
 
@@ -591,6 +599,8 @@ def c02(ctx):
 
 def c15(ctx):
     stateless(ctx, "Spl", {"SplUn", "SplBin"})
+    # signed zeros (float, double, long double): splines that denote zero must be reported zero
+    stateless(ctx, "Fp", {"FpBin"}, variant="fp", build_as="fp_plain")
 
 
 def c01(ctx):
